@@ -110,7 +110,7 @@ def do_replay(prop, path):
 def main(prop, tier, seed, replay):
     if replay:
         return do_replay(prop, replay)
-    t0 = time.time()
+    t0 = time.monotonic()
     base = os.environ.get("MBH_WORK") or os.path.join(VERIF, "work")
     work = os.path.join(base, "%s-%d" % (prop, os.getpid()))
     shutil.rmtree(work, ignore_errors=True)
@@ -194,11 +194,11 @@ def main(prop, tier, seed, replay):
                   assumptions=["A2: SQLite's rollback journal recovers an interrupted transaction",
                                "os._exit at an intercepted call models kill -9; power loss (lost fsync) is not modelled",
                                "file contents are abstracted to (schema class, version rows, hash of all data rows, bytes equal to the initial file?)"],
-                  wall_s=round(time.time() - t0, 1), violations=len(viol))
+                  wall_s=round(time.monotonic() - t0, 1), violations=len(viol))
         os.makedirs(os.path.join(VERIF, "evidence"), exist_ok=True)
         json.dump(ev, open(os.path.join(VERIF, "evidence", prop + ".json"), "w"), indent=1)
         log("%s %s: %d histories (%d runs, %d killed mid-way) judged, %d violations, %.0fs"
-            % (prop, tier, len(histories), len(all_lines), len(crashed), len(viol), time.time() - t0))
+            % (prop, tier, len(histories), len(all_lines), len(crashed), len(viol), time.monotonic() - t0))
         return status
     finally:
         shutil.rmtree(work, ignore_errors=True)
